@@ -115,6 +115,27 @@ def gen_universe(rng):
     p_attr = 0.5 if style >= 0.7 else 0.25
     p_mgt = rng.choice([0.0, 0.3, 0.6])
 
+    def gen_excl_text(p_all=0.10):
+        ex = []
+        for _ in range(rng.randrange(1, 4)):
+            q = rng.random()
+            tn = rng.choice(names)
+            g, a = tn.split(b":")
+            if q < 0.55:
+                ex.append(tn)
+            elif q < 0.75:
+                ex.append(g + b":*")
+            elif q < 1.0 - p_all:
+                ex.append(b"*:" + a)
+            else:
+                ex.append(b"*:*")
+        return rng.choice([b"|", b","]).join(ex)
+
+    # exclusion texts recur in real POMs (the same exclusion list is pasted on many declarations):
+    # a per-universe pool makes identical texts appear at different places and depths
+    excl_pool = [gen_excl_text(0.03) for _ in range(rng.choice([0, 0, 1, 2, 3]))]
+    p_excl = rng.choice([0.30, 0.30, 0.6])
+
     def gen_type(mgmt=False):
         t = []
         if rng.random() < p_attr:
@@ -133,21 +154,11 @@ def gen_universe(rng):
                 t.append([K_CLS, rng.choice([b"x", b"y"])])
             if rng.random() < 0.18:
                 t.append([K_TYPE, rng.choice([b"war", b"ear", b"rar", b"pom", b"test-jar", b"jar"])])
-            if not mgmt and rng.random() < 0.30:
-                ex = []
-                for _ in range(rng.randrange(1, 4)):
-                    q = rng.random()
-                    tn = rng.choice(names)
-                    g, a = tn.split(b":")
-                    if q < 0.55:
-                        ex.append(tn)
-                    elif q < 0.75:
-                        ex.append(g + b":*")
-                    elif q < 0.90:
-                        ex.append(b"*:" + a)
-                    else:
-                        ex.append(b"*:*")
-                t.append([K_EXCL, rng.choice([b"|", b","]).join(ex)])
+            if not mgmt and rng.random() < p_excl:
+                if excl_pool and rng.random() < 0.65:
+                    t.append([K_EXCL, rng.choice(excl_pool)])
+                else:
+                    t.append([K_EXCL, gen_excl_text()])
         return t
 
     def gen_req(target):
@@ -190,7 +201,68 @@ def gen_universe(rng):
                                                            [[K_ORIGIN, rng.choice([b"import", b"parent"])]]])
             vl.append([v, deps])
         pkgs.append([nm, vl])
+    if rng.random() < 0.25:
+        graft_shared_exclusions(rng, pkgs, names, versions)
     return pkgs
+
+
+def graft_shared_exclusions(rng, pkgs, names, versions):
+    """Template family grafted onto a random universe: ONE exclusion text carried by several declarations at
+    different depths below a new root, some of them below ancestors that exclude other artifacts, some not; the
+    artifacts named by the texts ("victims") are declared by the nodes behind those declarations, so every victim is
+    reachable through paths that do not exclude it.  Shapes, depths, order, versions and texts are random."""
+    grp = b"gs"
+    nv = rng.randrange(2, 5)
+    victims = [grp + b":v%d" % i for i in range(nv)]
+    vvers = {v: rng.sample([b"1.0", b"2.0", b"3.0"], rng.randrange(1, 4)) for v in victims}
+
+    def text(k):
+        ex = []
+        for v in rng.sample(victims, min(k, nv)):
+            ex.append(v if rng.random() < 0.7 else b"*:" + v.split(b":")[1])
+        return rng.choice([b"|", b","]).join(ex)
+    shared = text(rng.randrange(1, 3))
+    newp = {}
+
+    def add(name, deps):
+        newp.setdefault(name, []).extend(deps)
+
+    def victim_deps():
+        ds = []
+        for v in rng.sample(victims, rng.randrange(1, nv + 1)):
+            ds.append([v, rng.choice(vvers[v]), []])
+        if names and rng.random() < 0.4:
+            tgt = rng.choice(names)
+            ds.append([tgt, rng.choice(versions[tgt]), []])
+        rng.shuffle(ds)
+        return ds
+    rootn = grp + b":root"
+    root_deps = []
+    nsites = rng.randrange(2, 5)
+    for i in range(nsites):
+        depth = rng.randrange(0, 3)
+        cur = rootn
+        for j in range(depth):
+            nxt = grp + b":c%d_%d" % (i, j)
+            t = [[K_EXCL, text(rng.randrange(1, 3))]] if rng.random() < 0.55 else []
+            (root_deps if cur == rootn else newp.setdefault(cur, [])).append([nxt, b"1.0", t])
+            newp.setdefault(nxt, [])
+            cur = nxt
+        b = grp + b":b%d" % i
+        t = [[K_EXCL, shared if rng.random() < 0.85 else text(1)]]
+        (root_deps if cur == rootn else newp.setdefault(cur, [])).append([b, b"1.0", t])
+        add(b, victim_deps())
+    if rng.random() < 0.5:
+        root_deps.append([rng.choice(victims), None, []])
+    rng.shuffle(root_deps)
+    for d in root_deps:
+        if d[1] is None:
+            d[1] = rng.choice(vvers[d[0]])
+    pkgs.append([rootn, [[b"1.0", root_deps]]])
+    for nm, deps in newp.items():
+        pkgs.append([nm, [[b"1.0", deps]]])
+    for v in victims:
+        pkgs.append([v, [[ver, []] for ver in sorted(vvers[v])]])
 
 
 def canon_type(t):
@@ -420,7 +492,13 @@ def oracle(universe, root, obs, table, passes):
             h.expected_reqs = expected
             hits.append(h)
 
-    # ---- clause 4: a range declaration of a traversed node never vanishes silently
+    # ---- a kept declaration of a traversed node that no exclusion of the node's creating path covers never
+    # vanishes: it has an edge or a node error (for ranges this is the no-match clause; in general it is the
+    # other half of the exclusion clause: exclusions act on their own path only)
+    all_excl = set()
+    for ds in decls.values():
+        for d in ds:
+            all_excl |= parse_excl(tdict(d[2]).get(K_EXCL, b""))
     errset = set(errors)
     for n in nodes:
         cs = creator.get(n, [])
@@ -442,14 +520,18 @@ def oracle(universe, root, obs, table, passes):
                 continue
             k = art_key(nm, td)
             eff = mgt[k] if (n != rootn and k in mgt) else ver
-            if simple.get(eff) != 0:
-                continue
             bare = canon_type(ty)
             has_edge = any(e["to"][0] == nm and e["req"] == eff and e["bare"] == bare for e in out.get(n, []))
             has_err = (n, (nm, eff)) in errset
             if not has_edge and not has_err:
-                hits.append(Hit("no_match_reported", "a range declaration of a traversed node has neither an edge nor a node error",
-                                {"node": n, "declaration": (nm, eff, sorted(td.items()))}))
+                if excluded(all_excl, nm):
+                    hits.append(Hit("exclusions", "a declaration that no exclusion on the creating path of its node covers is "
+                                    "missing from the graph although some exclusion elsewhere in the universe names it "
+                                    "(an exclusion acts outside its path)",
+                                    {"node": n, "declaration": (nm, eff, sorted(td.items())), "path_exclusions": sorted(ex)}))
+                else:
+                    hits.append(Hit("no_match_reported", "a kept declaration of a traversed node has neither an edge nor a node error",
+                                    {"node": n, "declaration": (nm, eff, sorted(td.items()))}))
     for (n, r) in errors:
         # a node error must not coexist with an edge for the very same declaration
         pass
@@ -677,6 +759,8 @@ def run(ctx):
         us = [gen_universe(rng) for _ in range(min(batch, n - done))]
         run_universes(ctx, us, "universes")
         done += len(us)
+    # violations that carry a minimised universe go first in the replay
+    ctx.violations.sort(key=lambda v: 0 if isinstance(v.get("input"), dict) and "minimal" in v["input"] else 1)
     ok = ctx.dist.get("outcome:ok", 0)
     total = sum(v for k, v in ctx.dist.items() if k.startswith("outcome:"))
     if total and ok / total < 0.35:
